@@ -11,6 +11,7 @@ import (
 	"regexp"
 	"sort"
 	"strings"
+	"time"
 
 	"github.com/0chain/common/core/logging"
 	"go.uber.org/zap"
@@ -111,7 +112,8 @@ type World struct {
 	ML      *logging.MemLogger
 	Loggers []*zap.Logger
 	Cores   []zapcore.Core
-	Written []string // model: ids in write order
+	Written []string        // model: ids in write order
+	Lvl     zap.AtomicLevel // the level enabler the buffer's cores were built with
 	Stats   sim.Stats
 	V       *sim.Violation
 	Step    int
@@ -120,8 +122,9 @@ type World struct {
 
 func NewWorld(prop string) *World {
 	enc := zapcore.NewConsoleEncoder(zap.NewProductionEncoderConfig())
-	ml := logging.NewMemLogger(enc, zapcore.DebugLevel)
-	w := &World{Prop: prop, ML: ml, Stats: sim.Stats{}}
+	lvl := zap.NewAtomicLevelAt(zapcore.DebugLevel)
+	ml := logging.NewMemLogger(enc, lvl)
+	w := &World{Prop: prop, ML: ml, Stats: sim.Stats{}, Lvl: lvl}
 	w.Cores = []zapcore.Core{ml.GetCore()}
 	w.Loggers = []*zap.Logger{zap.New(ml.GetCore())}
 	return w
@@ -184,10 +187,76 @@ func (w *World) Write(l int) {
 	}
 	id := w.NextID("")
 	w.guard("Info", func() { w.Loggers[l].Info(id, zap.String("id", id)) })
+	if !w.Lvl.Enabled(zapcore.InfoLevel) {
+		w.Stats.Inc("probe.write-below-the-buffer-level")
+		return // filtered by the logger (Check), never handed to the buffer
+	}
 	w.Written = append(w.Written, id)
 	w.Stats.Inc("mut")
 	if l > 0 {
 		w.Stats.Inc("probe.write-through-derived")
+	}
+}
+
+var levels = []zapcore.Level{zapcore.DebugLevel, zapcore.InfoLevel, zapcore.WarnLevel, zapcore.ErrorLevel}
+
+// WriteAt logs through logger l at one of four levels; the logger filters what the buffer's level excludes.
+func (w *World) WriteAt(l, lv int) {
+	if l < 0 || l >= len(w.Loggers) {
+		return
+	}
+	level := levels[((lv%4)+4)%4]
+	id := w.NextID("")
+	w.guard("write at a level", func() {
+		if ce := w.Loggers[l].Check(level, id); ce != nil {
+			ce.Write(zap.String("id", id))
+		}
+	})
+	if w.Lvl.Enabled(level) {
+		w.Written = append(w.Written, id)
+		w.Stats.Inc("mut")
+	} else {
+		w.Stats.Inc("probe.write-below-the-buffer-level")
+	}
+}
+
+// CoreWrite hands an entry straight to a core's Write (what a wrapping core or a tee does after ITS check):
+// "If called, Write should always log the Entry" - whatever the buffer's own level says.
+func (w *World) CoreWrite(l, lv int) {
+	if l < 0 || l >= len(w.Cores) {
+		return
+	}
+	level := levels[((lv%4)+4)%4]
+	id := w.NextID("")
+	w.guard("Core.Write", func() {
+		w.Cores[l].Write(zapcore.Entry{Level: level, Message: id, Time: time.Unix(1700000000, 0)}, []zapcore.Field{zap.String("id", id)})
+	})
+	w.Written = append(w.Written, id)
+	w.Stats.Inc("mut")
+	if !w.Lvl.Enabled(level) {
+		w.Stats.Inc("probe.core-write-below-the-buffer-level")
+	}
+}
+
+// SplitWrite: an entry is accepted by Check, the buffer's level is raised, then the checked entry is written.
+func (w *World) SplitWrite(l, lv int) {
+	if l < 0 || l >= len(w.Loggers) {
+		return
+	}
+	id := w.NextID("")
+	var accepted bool
+	w.guard("Check / level change / Write", func() {
+		ce := w.Loggers[l].Check(zapcore.InfoLevel, id)
+		accepted = ce != nil
+		w.Lvl.SetLevel(levels[((lv%4)+4)%4])
+		if ce != nil {
+			ce.Write(zap.String("id", id))
+		}
+	})
+	if accepted {
+		w.Written = append(w.Written, id)
+		w.Stats.Inc("mut")
+		w.Stats.Inc("probe.checked-entry-written-after-level-change")
 	}
 }
 
@@ -338,6 +407,14 @@ func Exec(sc sim.Script) *sim.Outcome {
 
 func (w *World) Apply(op Op) {
 	switch op.K {
+	case "setlevel":
+		w.Lvl.SetLevel(levels[((op.N%4)+4)%4])
+	case "writeat":
+		w.WriteAt(op.L, op.N)
+	case "corewrite":
+		w.CoreWrite(op.L, op.N)
+	case "splitwrite":
+		w.SplitWrite(op.L, op.N)
 	case "wiring":
 		w.wiring(op)
 	case "derive":
@@ -367,10 +444,24 @@ func Gen(r *sim.Rand, tier string) sim.Script {
 	nOps := 3 + r.Intn(30)
 	nl := 1
 	big := r.Chance(1, 6) // totals at and far above the capacity
-	if r.Chance(1, 60) { // the package's own wiring: InitLogging, four root loggers, three dump handlers
+	if r.Chance(1, 60) {  // the package's own wiring: InitLogging, four root loggers, three dump handlers
 		s.Ops = append(s.Ops, Op{K: "wiring", L: r.Intn(1000), N: r.Intn(1000)})
 	}
+	lv := r.Chance(1, 4) // levels: the buffer's enabler changes, loggers write at all levels, cores are written to directly
 	for i := 0; i < nOps; i++ {
+		if lv && r.Chance(1, 3) {
+			switch r.Intn(4) {
+			case 0:
+				s.Ops = append(s.Ops, Op{K: "setlevel", N: r.Intn(4)})
+			case 1:
+				s.Ops = append(s.Ops, Op{K: "writeat", L: r.Intn(nl), N: r.Intn(4)})
+			case 2:
+				s.Ops = append(s.Ops, Op{K: "corewrite", L: r.Intn(nl), N: r.Intn(4)})
+			case 3:
+				s.Ops = append(s.Ops, Op{K: "splitwrite", L: r.Intn(nl), N: r.Intn(4)})
+			}
+			continue
+		}
 		switch r.Weighted([]int{5, 14, 3, 4}) {
 		case 0:
 			s.Ops = append(s.Ops, Op{K: "derive", L: r.Intn(nl), N: r.Intn(2)})
